@@ -275,6 +275,7 @@ fn exec_ticker(sc: &Scenario) -> Report {
         let ops = sc.threads.first().cloned().unwrap_or_default();
         let mut installed = false;
         let mut finished = false;
+        let mut finished_with_ticker = false;
         // frames seen so far
         let mut seen = 0usize;
         let digit_of = |rows: &Vec<String>| -> Option<char> { rows.last().and_then(|l| l.chars().next()) };
@@ -302,7 +303,21 @@ fn exec_ticker(sc: &Scenario) -> Report {
                 "set_message" => call(|| pb.set_message("m")),
                 "finish" => {
                     finished = true;
+                    if installed {
+                        finished_with_ticker = true;
+                    }
                     call(|| apply_finish(&pb, op.n0(), "fin"))
+                }
+                "reset" => {
+                    // a finished bar goes back to work; the ticker thread of a finished bar has
+                    // stopped (or stops at its next wake-up) and must be enabled again
+                    if finished {
+                        // let it notice that the bar is finished before it is reset
+                        sched::sleep(2 * d_ns + 1);
+                        installed = false;
+                    }
+                    finished = false;
+                    call(|| pb.reset())
                 }
                 "sleep_intervals" => {
                     // k tick intervals pass while the user thread does nothing
@@ -370,7 +385,7 @@ fn exec_ticker(sc: &Scenario) -> Report {
             }
         }
         // finished bar: the ticker thread must be gone at its next wake-up at the latest
-        if finished && installed {
+        if finished && installed && finished_with_ticker {
             sched::sleep(2 * d_ns + 1);
             let live = live_tickers();
             if live > 0 {
@@ -466,7 +481,8 @@ impl Check for C08 {
             let mut ops = vec![];
             let n = rng.range(2, if tier == Tier::Quick { 8 } else { 14 });
             for _ in 0..n {
-                ops.push(match rng.weighted(&[4, 3, 5, 3, 2, 2, 1]) {
+                ops.push(match rng.weighted(&[4, 3, 5, 3, 2, 2, 1, 1]) {
+                    7 => Op::new("reset"),
                     0 => Op::new("enable"),
                     1 => Op::new("disable"),
                     2 => Op::new("sleep_intervals").n(rng.range(1, 6)),
